@@ -1014,3 +1014,140 @@ func c07LoopbackErr(c *core.Ctx, root *packages.Package) {
 	}
 	c.Floor("C07.loopbackerr", "loopback write methods", n, 2)
 }
+
+// c13Rules4b (F123, F124; found by a saboteur while preparing round 4).
+func c13Rules4b(c *core.Ctx) {
+	c.Rule("C13.nilfunc", "A9: in the pipeline→TICKscript function builder a chain node is never made with a function that may be nil: a function obtained from a helper that can return nil (all arguments zero) is tested against nil before it becomes the right side of a chain")
+	if tp := c.P.Pkg("pipeline/tick"); tp != nil {
+		info := tp.TypesInfo
+		mayNil := map[*types.Func]bool{}
+		for _, f := range core.AllFuncs(tp) {
+			if fo, ok := info.Defs[f.Decl.Name].(*types.Func); ok {
+				ast.Inspect(f.Decl.Body, func(n ast.Node) bool {
+					if ret, ok := n.(*ast.ReturnStmt); ok && len(ret.Results) == 2 && types.ExprString(ret.Results[0]) == "nil" && types.ExprString(ret.Results[1]) == "nil" {
+						mayNil[fo] = true
+					}
+					return true
+				})
+			}
+		}
+		n := 0
+		for _, f := range core.AllFuncs(tp) {
+			if core.RecvName(f.Decl) != "Function" {
+				continue
+			}
+			// fn, err := <helper>(…)
+			var fnObj types.Object
+			var helper *types.Func
+			nameOnly := false
+			ast.Inspect(f.Decl.Body, func(nd ast.Node) bool {
+				as, ok := nd.(*ast.AssignStmt)
+				if !ok || len(as.Lhs) != 2 || len(as.Rhs) != 1 {
+					return true
+				}
+				call, ok := as.Rhs[0].(*ast.CallExpr)
+				if !ok {
+					return true
+				}
+				if cal := core.Callee(info, call); cal != nil && cal.Pkg() == tp.Types && f.Decl.Recv != nil {
+					if id, ok := as.Lhs[0].(*ast.Ident); ok {
+						if sig, ok := cal.Type().(*types.Signature); ok && sig.Results().Len() == 2 {
+							fnObj = info.Defs[id]
+							helper = cal
+							// called with the name only, the helpers return the bare function
+							nameOnly = len(call.Args) == 1 && call.Ellipsis == token.NoPos
+						}
+					}
+				}
+				return true
+			})
+			if fnObj == nil || helper == nil {
+				continue
+			}
+			// uses of fn as the right side of a chain constructor
+			ast.Inspect(f.Decl.Body, func(nd ast.Node) bool {
+				call, ok := nd.(*ast.CallExpr)
+				if !ok || len(call.Args) != 2 {
+					return true
+				}
+				cal := core.Callee(info, call)
+				if cal == nil || cal.Pkg() != tp.Types || (cal.Name() != "Dot" && cal.Name() != "Pipe" && cal.Name() != "At") || cal.Type().(*types.Signature).Recv() != nil {
+					return true
+				}
+				id, ok := ast.Unparen(call.Args[1]).(*ast.Ident)
+				if !ok || info.Uses[id] != fnObj {
+					return true
+				}
+				n++
+				c.Analysed(f)
+				cons := "Function." + f.Decl.Name.Name + "#" + cal.Name()
+				if !mayNil[helper] || nameOnly {
+					c.Ok("C13.nilfunc", cons)
+					return true
+				}
+				text := id.Name
+				guarded := guardedBy(f.Decl.Body, call, text, func(cond ast.Expr, br bool) bool {
+					b, ok := ast.Unparen(cond).(*ast.BinaryExpr)
+					if !ok || types.ExprString(b.X) != text || types.ExprString(b.Y) != "nil" {
+						return false
+					}
+					return (b.Op == token.NEQ) == br
+				})
+				c.Check(guarded, "C13.nilfunc", cons, call.Pos(), "Function.%s makes a chain node whose right side comes from %s, which returns nil when every argument is a zero value, without testing it against nil: .fill(0) on a query (an argument that was given) renders a chain without a function, and formatting the rendered script dereferences nil", f.Decl.Name.Name, helper.Name())
+				return true
+			})
+		}
+		c.Floor("C13.nilfunc", "chain constructions in the function builder", n, 5)
+	}
+	c.Rule("C13.prec", "A7: BinaryNode.Format does not write its operands directly: each goes through a helper that writes parentheses when the operand is a binary node without the parser's parentheses flag whose operator binds too weak for its place (the helper reads Parens and the Format compares operator precedences) — trees that were not parsed (two where conditions combined with AND) mean in text what the tree means")
+	ap := c.P.Pkg("tick/ast")
+	if ap == nil {
+		return
+	}
+	info := ap.TypesInfo
+	fn := c.Need("C13.prec", "tick/ast", "BinaryNode", "Format")
+	if fn == nil {
+		return
+	}
+	c.Analysed(fn)
+	direct, viaHelper, comparesPrec := 0, 0, false
+	var helper *types.Func
+	ast.Inspect(fn.Decl.Body, func(nd ast.Node) bool {
+		switch x := nd.(type) {
+		case *ast.CallExpr:
+			if sel, ok := x.Fun.(*ast.SelectorExpr); ok && sel.Sel.Name == "Format" {
+				if an.FieldSel(info, sel.X, "BinaryNode", "Left") || an.FieldSel(info, sel.X, "BinaryNode", "Right") {
+					direct++
+				}
+			}
+			if cal := core.Callee(info, x); cal != nil && cal.Pkg() == ap.Types {
+				for _, a := range x.Args {
+					if an.FieldSel(info, a, "BinaryNode", "Left") || an.FieldSel(info, a, "BinaryNode", "Right") {
+						viaHelper++
+						helper = cal
+					}
+				}
+				if strings.Contains(strings.ToLower(cal.Name()), "precedence") {
+					comparesPrec = true
+				}
+			}
+		case *ast.IndexExpr:
+			if id, ok := ast.Unparen(x.X).(*ast.Ident); ok && id.Name == "precedence" {
+				comparesPrec = true
+			}
+		}
+		return true
+	})
+	readsParens := false
+	if helper != nil {
+		if hf := c.P.FindFunc("tick/ast", "", helper.Name()); hf != nil {
+			ast.Inspect(hf.Decl.Body, func(nd ast.Node) bool {
+				if sel, ok := nd.(*ast.SelectorExpr); ok && sel.Sel.Name == "Parens" {
+					readsParens = true
+				}
+				return true
+			})
+		}
+	}
+	c.Check(direct == 0 && viaHelper >= 2 && comparesPrec && readsParens, "C13.prec", "BinaryNode.Format#operands", fn.Decl.Pos(), "BinaryNode.Format writes an operand without deciding whether it needs parentheses (direct Format calls on Left/Right: %d, operands through a helper: %d, operator precedences compared: %v, helper reads the Parens flag: %v): it relies on the flag the parser sets, and a tree that was not parsed — the condition two where properties are combined into, (a OR b) AND (c OR d) — is written as a OR b AND c OR d, which reads back as another condition", direct, viaHelper, comparesPrec, readsParens)
+}
